@@ -371,15 +371,64 @@ class _OsShim:
             return None
         return self._real.makedirs(p, *a, **kw)
 
-    def open(self, *a, **kw):
-        if CURRENT is not None:
-            raise seams.HarnessError("os.open is not modelled by SimFS")
-        return self._real.open(*a, **kw)
+    # -- descriptor-level writing: os.open(path, O_WRONLY|O_CREAT|O_TRUNC) + os.fdopen(fd, "wb") -----
+    _FD_BASE = 900000
 
-    def fdopen(self, *a, **kw):
-        if CURRENT is not None:
-            raise seams.HarnessError("os.fdopen is not modelled by SimFS")
-        return self._real.fdopen(*a, **kw)
+    def open(self, path, flags, mode=0o777, **kw):
+        if not _is_sim_target(path):
+            return self._real.open(path, flags, mode, **kw)
+        fsys = fs()
+        key = SimPath(str(path))._key()
+        writing = bool(flags & (self._real.O_WRONLY | self._real.O_RDWR))
+        if flags & self._real.O_APPEND:
+            raise seams.HarnessError("os.open(O_APPEND) is not modelled by SimFS")
+        table = fsys.__dict__.setdefault("fds", {})
+        fd = self._FD_BASE + len(table)
+        if writing:
+            fsys.stats["opens_w"] += 1
+            fault = fsys.take_fault()
+            s = seams.SIM
+            if s is not None:
+                s.trace("fs.os_open_w", key, (fault or {}).get("kind"))
+            if fault and fault["kind"] == "open":
+                if s is not None:
+                    s.fire("fs_open_" + fault["errno"])
+                raise _oserror(fault["errno"], key)
+            if not (flags & self._real.O_CREAT) and key not in fsys.files:
+                raise _oserror("ENOENT", key)
+            if (flags & self._real.O_TRUNC) or key not in fsys.files:
+                fsys.files[key] = b""
+            table[fd] = ("w", key, fault)
+        else:
+            if key not in fsys.files:
+                raise _oserror("ENOENT", key)
+            table[fd] = ("r", key, None)
+        return fd
+
+    def fdopen(self, fd, mode="r", *a, **kw):
+        table = fs().__dict__.get("fds", {}) if CURRENT is not None else {}
+        if fd not in table:
+            return self._real.fdopen(fd, mode, *a, **kw)
+        kind, key, fault = table.pop(fd)
+        if kind == "w":
+            if "w" not in mode and "a" not in mode and "+" not in mode:
+                raise seams.HarnessError("fdopen mode %r on a write descriptor" % mode)
+            return SimWriter(fs(), key, "b" not in mode, fault)
+        data = fs().files[key]
+        return io.BytesIO(data) if "b" in mode else io.StringIO(data.decode("utf-8"))
+
+    def close(self, fd):
+        table = fs().__dict__.get("fds", {}) if CURRENT is not None else {}
+        if fd in table:
+            table.pop(fd)
+            return None
+        return self._real.close(fd)
+
+    def write(self, fd, data):
+        table = fs().__dict__.get("fds", {}) if CURRENT is not None else {}
+        if fd in table:
+            raise seams.HarnessError("os.write on a simulated descriptor is not modelled by SimFS")
+        return self._real.write(fd, data)
 
     def __getattr__(self, name):
         return getattr(self._real, name)
